@@ -146,6 +146,15 @@ def groups(shard, seed, tier="quick"):
                     v["metric"] = mt
                     v["via_load"] = True
                     variants.append(v)
+                # another classifier (with another identifier of the family) is constructed between
+                # this one's fit and its predict
+                for i, mt in enumerate(FAMILY):
+                    for j in range(len(FAMILY)):
+                        if j != i:
+                            v = dict(base)
+                            v["metric"] = mt
+                            v["built_later"] = FAMILY[j]
+                            variants.append(v)
             yield base, variants
     else:
         _, a, b = shard
@@ -199,7 +208,11 @@ def execute(v):
                 sup.fit_program(prev, model=model)
             except Exception:
                 pass
+        if v.get("built_later"):
+            model = sup.fresh_model("SupervisedOPF", v["metric"], False)
         m, Wd = sup.fit_program(prog, model=model)
+        if v.get("built_later"):
+            bystander = sup.fresh_model("SupervisedOPF", v["built_later"], False)  # noqa: F841 (kept alive)
         if v.get("via_load"):
             # the classifier is saved and loaded into a freshly constructed default object
             import os
@@ -277,13 +290,16 @@ def describe(base, v):
         parts.append("an earlier fit on the same object interrupted at its metric call %d" % v["crash_before"])
     if v.get("via_load"):
         parts.append("saving and loading into a default object")
+    if v.get("built_later"):
+        parts.append("constructing another classifier with distance=%r between fit and predict" % v["built_later"])
     if v.get("metric") != base.get("metric"):
         parts.append("switching the metric %s -> %s" % (base.get("metric"), v.get("metric")))
     return " and ".join(parts) or "no change"
 
 
 def viol(base, v, prob, sym):
-    return {"check": "metamorphic", "program": {"base": base, "variant": v}, "observed": prob,
+    prog = {"base": base, "variant": v}
+    return {"check": "metamorphic", "program": prog, "observed": prob,
             "allowed": "identical per-sample state and predictions", "explanation": prob,
             "fingerprint": "SupervisedOPF order/rescale invariance: " + sym}
 
@@ -349,11 +365,15 @@ def run(shard, seed):
     for base, variants in groups(shard, seed, tier):
         try:
             with horizon(60.0):
+                h0 = sup.construction_history()
                 bres = execute(base)
                 res.transitions += 1
                 res.states += 1
                 for v in variants:
+                    h1 = sup.construction_history()
                     viol_ = compare(base, bres, v, res)
+                    if viol_ and (len(h0) > 1 or len(h1) > 1):
+                        viol_["program"]["constructed_before"] = [h0, h1]
                     res.transitions += 1
                     res.evaluations += 1
                     res.traces += 1
@@ -392,5 +412,14 @@ def replay(case):
     p = case["program"]
     if "base" in p and isinstance(p["base"], dict) and p["base"].get("kind") == "ladder":
         return ladder_case(p["base"])
+    hist = p.get("constructed_before")
+    if hist:
+        # the objects the exploring process had constructed before the base run / before the variant
+        sup.rebuild_history(hist[0])
     bres = execute(p["base"])
-    return compare(p["base"], bres, p["variant"])
+    if hist:
+        sup.rebuild_history(hist[1])
+    out = compare(p["base"], bres, p["variant"])
+    if out and p.get("constructed_before"):
+        out["program"]["constructed_before"] = p["constructed_before"]
+    return out
